@@ -32,6 +32,13 @@ pub fn c02_configs(tier: Tier) -> Vec<(Cfg, usize)> {
     c.root = vec![Op::Add, Op::Add, Op::Add, Op::Tick(0), Op::Tick(1), Op::Tick(2), Op::Finish(1), Op::DropBar(1)];
     c.max_bars = 4;
     v.push((c, d));
+    // a member slot freed by a lazily reaped zombie has been reused by a new bar
+    let mut c = Cfg::base("c02-slot-reuse", 20, 40);
+    c.root = vec![Op::Add, Op::Add, Op::Add, Op::Tick(0), Op::Tick(1), Op::Tick(2), Op::Finish(1), Op::DropBar(1), Op::DropBar(0), Op::Tick(2), Op::Add, Op::Tick(3)];
+    c.max_bars = 4;
+    c.suspend = false;
+    c.bar_println = false;
+    v.push((c, d));
     // two-line template, different finish rotation
     let mut c = Cfg::base("c02-two-line", 20, 40);
     c.two_line = true;
@@ -133,6 +140,15 @@ pub fn c04_configs(tier: Tier) -> Vec<(Cfg, usize)> {
     c.clear = false;
     c.msgs = vec![];
     v.push((c, if tier == Tier::Quick { 4 } else { 6 }));
+    // finishing a bar that lives in a recycled member slot
+    let mut c = Cfg::base("c04-slot-reuse", 20, 40);
+    c.root = vec![Op::Add, Op::Add, Op::Add, Op::Tick(0), Op::Tick(1), Op::Tick(2), Op::Finish(1), Op::DropBar(1), Op::DropBar(0), Op::Tick(2), Op::Add, Op::Tick(3)];
+    c.max_bars = 4;
+    c.suspend = false;
+    c.bar_println = false;
+    c.inserts = false;
+    c.msgs = vec!["m".into()];
+    v.push((c, d));
     let mut c = Cfg::base("c04-two-line-unlimited", 20, 40);
     c.two_line = true;
     c.fin_rot = 1;
